@@ -17,6 +17,9 @@ pub struct Game {
     pub player: Player,
     pub incremental_eval: IncrementalEvalFields,
     pub id: u8,
+    // fields of the position that an evaluation might (wrongly or rightly) consult: arbitrary values
+    pub halfmove_clock: u32,
+    pub plies: u32,
 }
 fn term(i: usize, game: &Game) -> PhasedEval {
     let (a, b): (i16, i16) = (kani::any(), kani::any());
@@ -53,7 +56,7 @@ pub mod pawn_structure {
 //@@ body: engine/eval/mod.rs :: fn eval => eval__body
 
 //@ obligation: C16.compose.sum_blend_sign
-//@ property: C16
+//@ property: C16 C04
 //@ domain: complete
 //@ functions: engine/eval/mod.rs::eval, engine/eval/mod.rs::absolute_eval, engine/eval/mod.rs::absolute_eval_with_trace
 //@ timeout: 900
@@ -73,7 +76,7 @@ fn vk_c16_compose_sum_blend_sign() {
         GAME_ID = id;
         CALLS = [0; 3];
     }
-    let game = Game { player, incremental_eval: IncrementalEvalFields { phase_value: phase, piece_square_tables: PhasedEval::new(a, b) }, id };
+    let game = Game { player, incremental_eval: IncrementalEvalFields { phase_value: phase, piece_square_tables: PhasedEval::new(a, b) }, id, halfmove_clock: kani::any(), plies: kani::any() };
     let got = eval__body(&game);
     unsafe {
         assert!(CALLS[0] == 1 && CALLS[1] == 1 && CALLS[2] == 1);
